@@ -55,15 +55,20 @@ class Ctx(object):
 
     def borrow(self, run, mapping, why):
         """run the rules of another property's module and keep the ones named in mapping {their id: id here}: they decide a
-        clause that is a necessary condition of this property as well (why). Everything else that module reports is dropped."""
-        if self._alias is not None:
-            raise AnalysisBroken('nested borrow')
-        self._alias = dict(mapping)
-        self._alias_why = why
+        clause that is a necessary condition of this property as well (why). Everything else that module reports is dropped.
+        Borrows nest: a rule borrowed by the borrowed module is kept only if its id there is mapped here as well."""
+        outer, outer_why = self._alias, getattr(self, '_alias_why', '')
+        if outer is None:
+            eff = dict(mapping)
+        else:
+            eff = {k: outer[v] for k, v in mapping.items() if v in outer}
+        self._alias = eff
+        self._alias_why = why if outer is None else outer_why
         try:
             run(self)
         finally:
-            self._alias = None
+            self._alias = outer
+            self._alias_why = outer_why
 
     def rule(self, rid, text, minimum=1, star=False):
         if self._alias is not None:
